@@ -88,6 +88,7 @@ func toInt(v interface{}) int {
 }
 
 func timecodes(d stlx.Doc) (out [][4]int) {
+	out = append(out, d.Tcp) // the timecode start of programme of the GSI block is a timecode like the others
 	for _, t := range d.Ttis {
 		out = append(out, t.Tci, t.Tco)
 	}
